@@ -1,4 +1,4 @@
 """Which level each property's evidence may claim: 'proof' once Properties/<id>.lean contains the
 property's theorems (not the placeholder), 'exploration' before that."""
 LEVEL = {f"C{i:02d}": "exploration" for i in range(1, 19)}
-LEVEL.update({"C01": "proof", "C02": "proof", "C03": "proof"})
+LEVEL.update({k: "proof" for k in ["C01", "C02", "C03", "C09", "C10", "C12", "C13", "C15", "C16", "C18"]})
